@@ -196,6 +196,8 @@ class IENA(object):
         return "IENAP: KEY={:#0X} SEQ={} TIMEUS={}".format(self.key, self.sequence, self.timeusec)
 
     def __eq__(self, other):
+        if not isinstance(other, IENA):
+            return False
         for attr in self._req_attr:
             if getattr(self, attr) != getattr(other, attr):
                 return False
